@@ -106,12 +106,8 @@ func (s *JavaAPIListener) EnterAnnotation(ctx *parser.AnnotationContext) {
 	uriRemoveQuote := strings.ReplaceAll(uri, "\"", "")
 
 	currentRestAPI = api_domain2.RestAPI{Uri: uriRemoveQuote}
-	if annotationName != "RequestMapping" {
-		if hasEnterClass {
-			addApiMethod(annotationName)
-		}
-
-		return
+	if annotationName != "RequestMapping" && hasEnterClass {
+		addApiMethod(annotationName)
 	}
 
 	if ctx.ElementValuePairs() != nil {
